@@ -8,11 +8,12 @@ from symx import selftest
 def main(tier, t0):
     st = selftest.run(seed(), rounds=30)
     tasks = strfn_check.tasks("C10", tier) + step_check.tasks("C10", tier)
+    tasks += [("harness.api", "run_history", "api/" + n, dict(name=n)) for n in ("selectors-fsm", "selectors-json", "custom-instantiation-property")]
     results = run_pool(tasks, budget_s=600 if tier == "quick" else 3000)
     m, sm = strfn_check.meta("C10"), step_check.meta("C10")
     meta = dict(functions_encoded=m["functions_encoded"] + sm["functions_encoded"], bounds=dict(m["bounds"], **sm["bounds"]),
                 stubs=["triples yielder of the tracker: a python stub", "sparql.prepareQuery (selector parser): no-op; evaluation of generated queries by rdflib is trusted (outside symbolic reach)"],
-                assumptions=sm["assumptions"],
+                assumptions=sm["assumptions"] + ["obligations api/* are concrete end-to-end replays (10 selectors x 2 label spellings x 2 syntaxes on one graph; rdflib evaluates the generated queries): NOT solver-decided"],
                 explanation="(a) one step of the instance tracker (TargetClassesMode / AllClasesMode, instantiation property rdf:type / custom / P31) on a triple whose predicate and object IRIs carry "
                             "symbolic characters: accepted <=> predicate = instantiation property and (all classes or object in targets), instance map gains exactly (subject -> + class); "
                             "(b) target class names in full / <bracketed> / prefixed spelling resolve to the full IRI; (c) selector and label parsing on symbolic IRIs. proxy self-test: %r" % (st,))
